@@ -12,7 +12,10 @@ open SaphyrVerif SaphyrVerif.Scalars SaphyrVerif.Pump SaphyrVerif.Budget SaphyrV
 def obs (b : Option Enf) (raw : Raw) : Except Breach (Option Enf) :=
   match b with
   | none => .ok none
-  | some enf => (enf.observe raw).map some
+  | some enf =>
+    match raw with
+    | .alias _ => enf.observeAliasReplayed.map some
+    | _ => (enf.observe raw).map some
 
 /-- budget part of a replayed delivery -/
 def ReplayBud (b : Option Enf) (e : Ev) (b' : Option Enf) : Prop :=
@@ -107,7 +110,7 @@ inductive Deliver : Pump → Ev → Pump → Prop
       (hc : newCount q id ≤ q.limits.maxAliasExpansionsPerAnchor)
       (hrec : q.recursiveInProgress.contains id = true) :
       Deliver q (.scalar [] 4 none .plain id loc)
-        { q with budget := bud, perAnchor := (id, newCount q id) :: q.perAnchor
+        { q with budget := bud.map Enf.aliasOccupiesPosition, perAnchor := (id, newCount q id) :: q.perAnchor
                  recStack := recordAll q.recStack (.scalar [] 4 none .plain id loc), lastLoc := loc, producedAny := true }
   | replay (q : Pump) (id : Nat) (bud bud' : Option Enf) (inj : List InjectFrame) (ev : Ev)
       (hb : obs q.budget (.alias id) = .ok bud)
